@@ -73,10 +73,30 @@ class UnitResult:
     pass
 
 
+CACHE = {'hits': 0, 'misses': 0}
+
+
 def run_verus(rs, rlimit=None):
     cmd = ['verus', os.path.basename(rs)] + VERUS_ARGS
     if rlimit:
         cmd += ['--rlimit', str(rlimit)]
+    # result cache keyed by the full generated text (regenerated from /repo on every run) and the
+    # command line: identical verifier input, identical verdict
+    key = hashlib.sha256(open(rs, 'rb').read() + ' '.join(cmd[2:]).encode() + ve_version().encode()).hexdigest()
+    cpath = os.path.join(OUT, 'cache', key + '.json')
+    if os.environ.get('VERIF_NOCACHE') != '1' and os.path.exists(cpath):
+        try:
+            c = json.load(open(cpath))
+            # diagnostics name the file they were produced from; spans are positional, so re-key the file name
+            for d in c['diags']:
+                for sp in d.get('spans', []):
+                    if sp.get('file_name', '').endswith('.rs') and '/' not in sp['file_name']:
+                        sp['file_name'] = os.path.basename(rs)
+            CACHE['hits'] += 1
+            return cmd, c['rc'], c['js'], c['diags'], c['dt'], c['stderr']
+        except Exception:
+            pass
+    CACHE['misses'] += 1
     t0 = time.time()
     p = subprocess.run(cmd, cwd=os.path.dirname(rs), capture_output=True, text=True)
     dt = time.time() - t0
@@ -92,6 +112,11 @@ def run_verus(rs, rlimit=None):
                 diags.append(json.loads(line))
             except Exception:
                 pass
+    try:
+        os.makedirs(os.path.join(OUT, 'cache'), exist_ok=True)
+        json.dump({'rc': p.returncode, 'js': js, 'diags': diags, 'dt': dt, 'stderr': p.stderr[-4000:]}, open(cpath, 'w'))
+    except Exception:
+        pass
     return cmd, p.returncode, js, diags, dt, p.stderr
 
 
@@ -168,6 +193,8 @@ def scan_assumptions(lines):
         t = text.strip()
         if t.startswith('//'):
             continue
+        if '// case-split' in text:
+            continue
         if re.search(r'external_body|assume_specification|\buninterp\b|\badmit\(\)|\bassume\(|external_trait_specification|external_type_specification|exec_allows_no_decreases_clause', text):
             out.append(norm(text)[:160])
     return out
@@ -206,9 +233,15 @@ def run_unit(path, repo=None, with_vac=True):
             errs = [d for d in diags if d.get('level') == 'error' and 'aborting due to' not in d.get('message', '')]
         return cmd, rc, js, errs, dt, stderr
 
+    ncases = max([len(getattr(it, 'split_cases', [])) for it in items] + [0])
+    res['case_split'] = ncases
     futs = {}
-    with cf.ThreadPoolExecutor(max_workers=2) as ex:
+    casefuts = []
+    with cf.ThreadPoolExecutor(max_workers=16) as ex:
         futs['main'] = ex.submit(go, rs, lmap)
+        for j in range(1, ncases + 1):
+            _, clines, _, crs = ve.write_generated(path, OUT, repo, vac=False, variant=j)
+            casefuts.append((j, [o for _, o in clines], crs, ex.submit(go, crs, [o for _, o in clines])))
         if with_vac:
             try:
                 _, vlines, _, vrs = ve.write_generated(path, OUT, repo, vac=True)
@@ -237,8 +270,25 @@ def run_unit(path, repo=None, with_vac=True):
     except Exception:
         pass
     rsname = os.path.basename(rs)
-    for d in errs:
-        f = classify(d, lmap, rsname, meta['unit'])
+    allerrs = [(d, lmap, rsname) for d in errs]
+    res['case_times_s'] = []
+    for j, cmap, crs, fut in casefuts:
+        ccmd, crc, cjs, cerrs, cdt, cstderr = fut.result()
+        res['case_times_s'].append(round(cdt, 1))
+        cvr = (cjs or {}).get('verification-results') if cjs else None
+        if not cvr or cvr.get('encountered-vir-error') or ('verified' not in cvr):
+            res['status'] = 'undecided'
+            res['reason'] = 'case variant %d did not reach verification: %s' % (j, ' | '.join(d['message'] for d in cerrs[:3]))
+            continue
+        res['verus_s'] = round(max(res['verus_s'], cdt), 2)
+        res['smt_ms'] = (res.get('smt_ms') or 0) + (cjs['times-ms']['smt']['smt-run'] if cjs else 0)
+        allerrs += [(d, cmap, os.path.basename(crs)) for d in cerrs]
+    seen_ids = set()
+    for d, lm_, rn_ in allerrs:
+        f = classify(d, lm_, rn_, meta['unit'])
+        if f['id'] in seen_ids:
+            continue
+        seen_ids.add(f['id'])
         if f['kind'] == 'other' and ('rlimit' in f['message'].lower() or 'resource limit' in f['message'].lower()):
             res['status'] = 'undecided'
             res['reason'] = 'resource limit exceeded after retry: ' + f['id']
@@ -425,6 +475,8 @@ def main():
             'obligation_counting_rule': 'one per labelled contract clause tagged with the property + one per extracted function tagged with it (its implicit safety conditions and unlabelled clauses); discharged = those minus distinct failing obligation ids',
             'functions_under_contract': fn_under_contract,
             'units': unit_stats,
+            'verifier_runs': {'executed_now': CACHE['misses'], 'reused_from_cache': CACHE['hits'],
+                              'note': 'a verifier run is reused only when the generated file (regenerated from /repo on this run) and the command line are byte-identical to an earlier run; set VERIF_NOCACHE=1 to force re-verification'},
             'extra_checks': [{k: v for k, v in e.items() if k not in ('violations',)} for e in extra],
             'known_findings_reported': [k['what'] for _, k in knownhits],
             'not_decided': spec.get('not_decided', []),
